@@ -177,3 +177,76 @@ End CostRun.
 
 Definition cost64 pf al me n m := cost_run F64 f64_of_bits f64_to_bits pf al me n m.
 Definition cost32 pf al me n m := cost_run F32 f32_of_bits f32_to_bits pf al me n m.
+
+(* Component operation sequences (Active, LinkageHeap, LinkageUnionFind through
+   the cfg(kodama_verif) re-exports).  A panicking op leaves the model's state
+   unchanged.  Tokens per op, separator -1. *)
+Section CompRun.
+Local Open Scope Z_scope.
+
+Definition res_tokens {A} (r : res A) (k : A -> list Z) : list Z :=
+  match r with Ok a => 0 :: k a | Panic pk => [1; panic_code pk] | OutOfFuel => [2] end.
+
+Definition bound_of (kind v : Z) : bound :=
+  match kind with 0 => Unb | 1 => Incl (Z.to_nat v) | _ => Excl (Z.to_nat v) end.
+
+(* Active: [0;len] reset, [1;i] remove, [2;i] contains, [3] iter, [4;lk;lo;hk;hi] range *)
+Definition active_step (a : active) (o : list Z) : active * list Z :=
+  match o with
+  | [0; len] => (a_reset a (Z.to_nat len), [0])
+  | [1; i] => match a_remove a (Z.to_nat i) with
+              | Ok a' => (a', [0]) | Panic pk => (a, [1; panic_code pk]) | OutOfFuel => (a, [2]) end
+  | [2; i] => (a, res_tokens (a_contains a (Z.to_nat i)) (fun b => [if b then 1 else 0]))
+  | [3] => (a, res_tokens (a_iter a) (map zn))
+  | [4; lk; lo; hk; hi] => (a, res_tokens (a_range a (bound_of lk lo) (bound_of hk hi)) (map zn))
+  | _ => (a, [9])
+  end.
+
+Definition activeops (ops : list (list Z)) : list Z :=
+  snd (fold_left (fun (acc : active * list Z) o => let '(a, out) := acc in
+                    let '(a', t) := active_step a o in (a', out ++ t ++ [-1])) ops (a_new, [])).
+
+(* union-find: [0;len] reset, [1;c] find, [2;a;b] union *)
+Definition uf_step (u : ufind) (o : list Z) : ufind * list Z :=
+  match o with
+  | [0; len] => (u_reset u (Z.to_nat len), [0])
+  | [1; c] => match u_find u (Z.to_nat c) with
+              | Ok (r, u') => (u', [0; zn r]) | Panic pk => (u, [1; panic_code pk]) | OutOfFuel => (u, [2]) end
+  | [2; a; b] => match u_union u (Z.to_nat a) (Z.to_nat b) with
+                 | Ok u' => (u', [0]) | Panic pk => (u, [1; panic_code pk]) | OutOfFuel => (u, [2]) end
+  | _ => (u, [9])
+  end.
+
+Definition ufops (ops : list (list Z)) : list Z :=
+  snd (fold_left (fun (acc : ufind * list Z) o => let '(u, out) := acc in
+                    let '(u', t) := uf_step u o in (u', out ++ t ++ [-1])) ops (u_new, [])).
+
+(* heap (f64): [0;len] reset, [1;v..] heapify writing v.. into the first
+   priorities, [2] pop, [3] peek, [4;o] priority, [5;o;v] set_priority, [6] len *)
+Notation H := (heap PrimFloat.float).
+Definition hltb := PrimFloat.ltb.
+Definition hmax := f_max F64.
+
+Definition heap_step (h : H) (o : list Z) : H * list Z :=
+  match o with
+  | [0; len] => (h_reset hmax h (Z.to_nat len), [0])
+  | 1 :: vals =>
+      let f (pr : list PrimFloat.float) :=
+        Ok (firstn (length pr) (map f64_of_bits vals ++ skipn (length vals) pr)) in
+      match h_heapify hltb hmax h f with
+      | Ok h' => (h', [0]) | Panic pk => (h, [1; panic_code pk]) | OutOfFuel => (h, [2]) end
+  | [2] => match h_pop hltb h with
+           | Ok (Some x, h') => (h', [0; 1; zn x]) | Ok (None, h') => (h', [0; 0])
+           | Panic pk => (h, [1; panic_code pk]) | OutOfFuel => (h, [2]) end
+  | [3] => (h, match h_peek h with Some x => [0; 1; zn x] | None => [0; 0] end)
+  | [4; ob] => (h, res_tokens (h_priority h (Z.to_nat ob)) (fun v => [f64_to_bits v]))
+  | [5; ob; v] => match h_set_priority hltb h (Z.to_nat ob) (f64_of_bits v) with
+                  | Ok h' => (h', [0]) | Panic pk => (h, [1; panic_code pk]) | OutOfFuel => (h, [2]) end
+  | [6] => (h, [0; zn (length (h_heap h))])
+  | _ => (h, [9])
+  end.
+
+Definition heapops (ops : list (list Z)) : list Z :=
+  snd (fold_left (fun (acc : H * list Z) o => let '(h, out) := acc in
+                    let '(h', t) := heap_step h o in (h', out ++ t ++ [-1])) ops (h_new PrimFloat.float, [])).
+End CompRun.
